@@ -126,7 +126,7 @@ let parse_call (t : string) : WriterApi.wcall * string list =
   | "BLOB" -> (WriterApi.AddBlob (bytes_of_hex (arg 1)), parts)
   | "PC" -> (WriterApi.AddPointcloud (bytes_of_hex (arg 1), parse_wproto (arg 2)), parts)
   | "IMG" -> (WriterApi.AddImage (bytes_of_hex (arg 1)), parts)
-  | "FIN" -> (WriterApi.Finalize, parts)
+  | "FIN" | "FINX" -> (WriterApi.Finalize, parts)  (* FINX: finalize_customized_xml(Ok); finalize() is defined as exactly that *)
   | "PT" -> (WriterApi.PcAddPoint (Stdlib.List.map parse_value
                                      (Stdlib.List.filter (fun x -> x <> "") (Stdlib.String.split_on_char ',' (arg 1)))), parts)
   | "PFIN" -> (WriterApi.PcFinalize, parts)
